@@ -13,6 +13,10 @@ RMOD_SRC = '''
 (defreader rnone None)
 '''
 
+RMOD2_SRC = '''
+(defreader rq (.parse-one-form &reader) '"B")
+'''
+
 # (source stream, expected: value of the whole stream | ("error", class) )
 STREAMS = [
     ("(defreader A (.parse-one-form &reader) '\"A\") #A x", "A"),
@@ -35,6 +39,14 @@ STREAMS = [
     ("(eval-and-compile (defreader E (.parse-one-form &reader) 3)) #E x", 3),
     ("(defreader A (.parse-one-form &reader) 1) (hy.eval (hy.read \"#A x\"))", ("error", "LexException")),
     ("(defreader A (.parse-one-form &reader) 1) (hy.eval (hy.read \"#A x\" :reader (hy.HyReader :use-current-readers True)))", 1),
+    # a later definition or require of a name that is already bound replaces it for the following forms
+    ("(defreader rq (.parse-one-form &reader) 1) (setv v #rq z) (require vfrmod37b :readers [rq]) [v #rq z]", [1, "B"]),
+    ("(require vfrmod37b :readers [rq]) (setv v #rq z) (require vfrmod37 :readers *) [v (len #rq z)]", ["B", 2]),
+    ("(require vfrmod37 :readers [rq]) (setv v (len #rq z)) (defreader rq (.parse-one-form &reader) 5) [v #rq z]", [2, 5]),
+    # a read that fails at compile time (the stream is compiled as a whole, so only compile-time code runs between its forms) leaves the stream's reader in charge
+    ("(eval-and-compile (try (hy.read \"#no-such-tag x\") (except [e Exception] None)))\n(defreader foo (.parse-one-form &reader) 4)\n#foo x", 4),
+    ("(defreader A (.parse-one-form &reader) 1)\n(eval-and-compile (try (list (hy.read-many \"(a #zz b)\")) (except [e Exception] None)))\n(defreader B (.parse-one-form &reader) 2)\n[#A x #B y]", [1, 2]),
+    ("(eval-when-compile (try (hy.eval (hy.read-many \"(defreader Z 1) #Q x\")) (except [e Exception] None)))\n(defreader foo (.parse-one-form &reader) 4)\n#foo x", 4),
 ]
 N = len(STREAMS)
 
@@ -45,12 +57,12 @@ def _setup():
 
     import hy
 
-    nm = "vfrmod37"
-    if nm not in sys.modules:
-        m = types.ModuleType(nm)
-        sys.modules[nm] = m
-        hy.eval(hy.read_many(RMOD_SRC), m.__dict__, module=m)
-        m.hy = hy  # a normally imported Hy module has `hy` bound (implicit import); hy.eval removes it again
+    for nm, src in (("vfrmod37", RMOD_SRC), ("vfrmod37b", RMOD2_SRC)):
+        if nm not in sys.modules:
+            m = types.ModuleType(nm)
+            sys.modules[nm] = m
+            hy.eval(hy.read_many(src), m.__dict__, module=m)
+            m.hy = hy  # a normally imported Hy module has `hy` bound (implicit import); hy.eval removes it again
 
 
 def _stream(i):
